@@ -16,6 +16,7 @@ open Proto Params
       map <name> <ini> <lo> <hi> <fx> <models N|-|i,j,..> <aliases N|S/a|L/a/b/..>
          -> ok | ERR:<exception class>
       view <names> <gflp>                  -> <views from the caches> ## <views from the bare list>
+      probe <values>                       -> name=<A|R per value>,... from setValue ## from Spec.accepts
       pview <gflp> <sel N|-|i,j>           -> mapper views
 -/
 
@@ -138,6 +139,9 @@ def fPMM (s : PMM Float) (g : List Float) (sel : Option (List Nat)) : String :=
     (List.range s.nModels).map (fun i =>
       s!"md{i}:" ++ fEx (fun d => fDict d) (s.modelParamsDict g i)))
 
+def fProbe (ps : List (Param Float)) (rows : List (List Bool)) : String :=
+  sl ((ps.zip rows).map (fun pr => pr.1.name ++ "=" ++ String.join (pr.2.map (fun (b : Bool) => if b then "A" else "R"))))
+
 def stepLine (stack : List St) (line : String) : List St × String :=
   let toks := tokens line
   match toks, stack with
@@ -153,6 +157,11 @@ def stepLine (stack : List St) (line : String) : List St × String :=
   | ["view", q, g], St.pmm s :: _ =>
       (stack, fViews (s.gps.views (pList id q) (pList pF g)) ++ " ## " ++
               fViews (Spec.views s.gps.params (pList id q) (pList pF g)))
+  | ["probe", xs], St.ps s :: _ =>
+      (stack, fProbe s.params (s.probe (pList pF xs)) ++ " ## " ++ fProbe s.params (Spec.probe s.params (pList pF xs)))
+  | ["probe", xs], St.pmm s :: _ =>
+      (stack, fProbe s.gps.params (s.gps.probe (pList pF xs)) ++ " ## " ++
+              fProbe s.gps.params (Spec.probe s.gps.params (pList pF xs)))
   | ["pview", g, sel], St.pmm s :: _ => (stack, fPMM s (pList pF g) (pSel sel))
   | _, top :: rest =>
       match pOp toks with
